@@ -44,12 +44,12 @@ def sx_unit(job):
         "inlined": sorted(cx.inlined), "dead_paths": cx.dead_paths, "exits": cx.exits, "notes": cx.notes[:10],
     }
     if kind == "contract":
-        fi = repo.func(specs.contracts[name].target)
+        fi = repo.func(specs.contracts[name].target.split('#')[0])
         out["span"] = [os.path.relpath(fi.module.path, repo.root), fi.span[0], fi.span[1]]
         out["findings"] = {k: v[0] for k, v in specs.contracts[name].findings.items()}
     if ur.error is None:
         for ob in cx.obligations:
-            out["obligations"].append({"name": ob.name, "query": cx.query(ob), "meta": ob.meta})
+            out["obligations"].append({"name": ob.name, "query": cx.query(ob), "query_rel": cx.query(ob, relevant=True), "query_dir": cx.query(ob, relevant=True, level=0), "meta": ob.meta})
         covs = cx.covers
         if len(covs) > 6:
             step = len(covs) / 6.0
@@ -70,11 +70,24 @@ def discharge_all(units, timeout_s, jobs, thorough):
             tasks.append(ob)
 
     def one(ob):
-        r = solve.solve_one(ob["query"], timeout_s)
-        if r["status"] not in ("unsat", "sat"):
-            # second attempt: all three back ends, longer budget (verdicts must not depend on load)
-            r2 = solve.solve_one(ob["query"], timeout_s * (6 if thorough else 3), backends=list(solve.BACKENDS.items()))
-            r2["tried"] = {**r.get("tried", {}), **{k + "/2": v for k, v in r2.get("tried", {}).items()}}
+        # 1. hypotheses restricted to the cone of influence of the goal (dropping hypotheses is sound)
+        r = solve.solve_one(ob.pop("query_rel"), min(timeout_s, 4.0))
+        r["tried"] = {k + "/rel": v for k, v in r.get("tried", {}).items()}
+        if r["status"] != "unsat":
+            r0 = r
+            r = solve.solve_one(ob.pop("query_dir"), min(timeout_s, 8.0))
+            r["tried"] = {**r0.get("tried", {}), **{k + "/dir": v for k, v in r.get("tried", {}).items()}}
+        else:
+            ob.pop("query_dir")
+        if r["status"] != "unsat":
+            # 2. the full query
+            r1 = solve.solve_one(ob["query"], timeout_s)
+            r1["tried"] = {**{k + "/rel": v for k, v in r.get("tried", {}).items()}, **r1.get("tried", {})}
+            r = r1
+        if r["status"] not in ("unsat", "sat") and thorough:
+            # 3. all three back ends, longer budget
+            r2 = solve.solve_one(ob["query"], timeout_s * 3, backends=list(solve.BACKENDS.items()))
+            r2["tried"] = {**r.get("tried", {}), **{k + "/3": v for k, v in r2.get("tried", {}).items()}}
             r = r2
         ob["result"] = {k: r[k] for k in ("status", "backend", "time", "tried")}
         if r["status"] != "unsat":
@@ -125,7 +138,9 @@ def main(argv=None):
         return rc
     t_start = time.time()
     _init()
-    ev_path = os.path.join(VERIF, "evidence", prop + ".json")
+    scratch = os.path.realpath(REPO) != "/repo"
+    # evidence/ and replays/ describe /repo itself; runs against a scratch copy (PROV_REPO) write elsewhere
+    ev_path = os.path.join(VERIF, ".build", "scratch", "evidence", prop + ".json") if scratch else os.path.join(VERIF, "evidence", prop + ".json")
     os.makedirs(os.path.dirname(ev_path), exist_ok=True)
     try:
         repo = Repo()
@@ -193,7 +208,7 @@ def main(argv=None):
     # native battery (replay step / search for a failing input) ------------
     violations = []
     undecided = []
-    replay_dir = os.path.join(VERIF, "replays", prop)
+    replay_dir = os.path.join(VERIF, ".build", "scratch", "replays", prop) if scratch else os.path.join(VERIF, "replays", prop)
     driver_result = None
     failed_clauses = sorted({clause_of(ob["name"]) for ob in failed})
     engine_errors_early = [u for u in units if u.get("error")]
@@ -222,7 +237,7 @@ def main(argv=None):
         was_proved = cl in base_clauses
         rp = os.path.join(replay_dir, re.sub(r"[^A-Za-z0-9_.-]+", "_", cl) + ".json")
         os.makedirs(replay_dir, exist_ok=True)
-        rel = [f for f in native_fail if cl.split("/")[-1] in [c.split("[")[0] for c in f.get("clauses", [])] or not f.get("clauses")]
+        rel = [f for f in native_fail if any(c.split("[")[0] in cl for c in f.get("clauses", [])) or not f.get("clauses")]
         info = {
             "property": prop, "obligation": cl, "was_proved_on_reference_tree": was_proved,
             "paths": [{"name": ob["name"], "status": ob["result"]["status"], "tried": ob["result"]["tried"],
